@@ -1,4 +1,76 @@
-import MV.Model.ActorSys
+import MV.Lemmas.ActorSysTurns
+import MV.Lemmas.ActorSysLocal
+import MV.Spec.ActorSys
+/-!
+# C05 — termination is hierarchical and complete; shutdown waits for everyone
+
+Model, tie and quantifiers as for C03.  Proved here (local theorems about the functions every
+termination goes through; the global statements are checked on the real system by the `c05*` judges of
+`MV.Spec.ActorSys` over the recorded event order and the final registry/status dump):
+
+* `tryTerminated` — the only place where an actor becomes `terminated`, handles its own `OnTerminated`,
+  unregisters and notifies parent and watchers — does nothing while the children map is non-empty
+  (`C05_no_termination_while_children_remain`) and nothing unless the status is `terminating`
+  (`C05_termination_needs_terminating`);
+* a terminate request acts only on an alive actor (`C05_terminate_request_only_when_alive`) — this
+  includes the reading that a request reaching an actor while it is *restarting* is dropped, which the
+  judge reports when it leaves the actor alive at quiescence;
+* a user message handled means the actor had not begun to terminate
+  (`C05_no_user_message_once_terminating`): user messages that reach a terminating/terminated actor
+  become dead letters, which is what makes a graceful terminate "handle everything queued before the
+  request and nothing after".
+
+Known findings (see `findings.d/C05.json`): a child spawned from the OnTerminated handler outlives its
+parent; a handler failure during termination blocks it.  The global children-first theorem
+(`C05_children_first`) needs the invariant "a non-terminated child is listed in its parent's children
+map"; the attempt to prove it exposed a real defect (a `Watch` answered by a *terminating* child let the
+parent drop it from the map; fixed in /repo) and is left as future work — the statement is in DESIGN.md.
+-/
 namespace MV.Props.C05
-theorem C05_placeholder : True := trivial
+open MV.Model.ActorSys MV.Spec.ActorSys
+
+theorem C05_no_termination_while_children_remain (w : World) (a : Aid)
+    (h : (actorAt w a).children ≠ []) : (((tryTerminated a).run).run w).2 = w := by
+  have := run_of_triple (tryTerminated a) (fun x => x = w) _ _ (tryTerminated_waits_for_children a w h) w rfl
+  revert this
+  generalize ((tryTerminated a).run).run w = r
+  obtain ⟨e, w'⟩ := r
+  cases e <;> simp
+
+theorem C05_termination_needs_terminating (w : World) (a : Aid)
+    (h : (actorAt w a).status ≠ .terminating) : (((tryTerminated a).run).run w).2 = w := by
+  have := run_of_triple (tryTerminated a) (fun x => x = w) _ _ (tryTerminated_needs_terminating a w h) w rfl
+  revert this
+  generalize ((tryTerminated a).run).run w = r
+  obtain ⟨e, w'⟩ := r
+  cases e <;> simp
+
+theorem C05_terminate_request_only_when_alive (w : World) (a : Aid) (g : Bool)
+    (h : (actorAt w a).status ≠ .alive) : (((onTerminate a g).run).run w).2 = w := by
+  have := run_of_triple (onTerminate a g) (fun x => x = w) _ _ (onTerminate_only_when_alive a g w h) w rfl
+  revert this
+  generalize ((onTerminate a g).run).run w = r
+  obtain ⟨e, w'⟩ := r
+  cases e <;> simp
+
+/-- once an actor is terminating (or terminated) no user message reaches its handler any more -/
+theorem C05_no_user_message_once_terminating (w : World) (a : Aid)
+    (ht : (actorOf w a).status.rank ≥ Status.terminating.rank) (op : Op) (es : List Event)
+    (h : (step w op).events = w.events ++ es) (i tag : Nat) (s : Option Aid) :
+    Event.handled a i (.user tag) s ∉ es := by
+  intro he
+  obtain ⟨es', h', hall⟩ := step_evok w op
+  have : es = es' := List.append_cancel_left (h.symm.trans h')
+  subst this
+  have hr := hall _ he
+  cases op with
+  | run b =>
+    simp [stepR, Rh] at hr
+    obtain ⟨hab, hobs⟩ := hr
+    subst hab
+    rcases hobs.2 with hs' | hs'
+    · exact absurd hs' (by simp [sysObs])
+    · omega
+  | _ => simp [stepR, Rh] at hr
+
 end MV.Props.C05
